@@ -8,15 +8,15 @@ from vt import detsched as ds
 ID = 'C08'
 ENGINE = 'detsched'
 TECHNIQUE = 'runtime monitoring: stable-priority-queue conformance checker over the operation log of the fabric queues (recorded under the queue mutex) and publish call/return records, with delivery threads starved by a deterministic cooperative scheduler'
-RULE = ('bursts of 3-40 unique-id publications with priorities from a small set (many ties) from 1-3 publisher threads while the delivery '
+RULE = ('bursts of 3-40 unique-id publications with priorities from a small set (many ties) from 1-3 publisher threads (in half of the runs a first part is published while the fabric is NOT running - before its first start or between a stop and the next start - so a backlog waits when the rest arrives) while the delivery '
         'threads are starved or interleaved by detsched (random schedules with low switch probability, PCT); the fabric queues are logging '
         'PriorityQueue subclasses whose _put/_get record under the queue\'s own mutex. For every get of item X: no item present in that '
         'queue at that moment may have a smaller priority number, or an equal priority and a publish call that RETURNED before X\'s publish '
         'call started; and the arrival order in every subscriber queue must equal the get order. distinct_nontrivial = distinct (burst '
         'size, publishers, multiset of priorities, max simultaneous equal-priority backlog) tuples with >= 3 equal-priority items waiting')
 CASES = {'quick': 2000, 'thorough': 100000}
-BUDGET = {'quick': 50, 'thorough': 1200}
-REQUIRE = {'bursts': 800, 'gets_checked': 10000, 'bursts_with_3_equal_waiting': 300, 'bursts_multi_publisher': 200}
+BUDGET = {'quick': 50, 'thorough': 300}
+REQUIRE = {'bursts': 800, 'gets_checked': 10000, 'bursts_with_3_equal_waiting': 300, 'bursts_multi_publisher': 200, 'bursts_with_backlog_while_stopped': 300}
 ASSUME = ['the fabric is running; one delivery thread per kind']
 ANNOUNCE_CASES = True
 
@@ -48,6 +48,19 @@ def run_case(ctx, n):
     try:
       fabric.subscribe(qf, Event(signal='C08_SIG'), queue_type='fifo')
       fabric.subscribe(ql, Event(signal='C08_SIG'), queue_type='lifo')
+      # part of the burst is published while the fabric is not running (before the first start, or between a stop and
+      # the next start): a backlog that is still waiting when later publications arrive
+      backlog = []
+      mode = rng.choice(['start', 'start', 'backlog-before-first-start', 'backlog-between-stop-and-start'])
+      if mode != 'start' and plans[0]:
+        if mode == 'backlog-between-stop-and-start':
+          fabric.start()
+          s.quiesce()
+          fabric.stop()
+        k = rng.randint(1, max(1, len(plans[0]) // 2))
+        backlog, plans[0] = plans[0][:k], plans[0][k:]
+        publisher(backlog)
+        ctx.count('bursts_with_backlog_while_stopped')
       fabric.start()
       if npub == 1 and rng.random() < 0.5:
         publisher(plans[0])
@@ -64,7 +77,7 @@ def run_case(ctx, n):
     ctx.count('bursts')
     if npub > 1:
       ctx.count('bursts_multi_publisher')
-    wit = {'plans': plans, 'policy': pol}
+    wit = {'plans': plans, 'published_while_stopped': backlog, 'mode': mode, 'policy': pol}
     exc = [(t.name, t.role, repr(t.exc)) for t in s.threads if t.exc is not None]
     if exc:
       ctx.violation('C08/exception-in-thread', 'a thread died: %r' % exc, wit)
@@ -74,8 +87,8 @@ def run_case(ctx, n):
       present = []
       gets = []
       for (op, qid, item, step) in ds.PQLOG:
-        if qid != id(fq):
-          continue
+        if qid != id(fq) or item.event.signal_name != 'C08_SIG':
+          continue          # (stop() wakes the delivery threads with an item of its own)
         u = item.event.payload
         if op == 'put':
           present.append(item)
